@@ -11,6 +11,7 @@ import itertools
 import os
 import shutil
 import sqlite3
+import tempfile
 import warnings
 
 import numpy as np
@@ -26,7 +27,7 @@ RULE = ("catalogues = ALL sequences of length 1..2 (quick) / 1..3 (thorough) ove
         "component; negative fluxes; NaN fields with the XX:XX:XX.XX strings Aegean writes for NaN coordinates; -1 "
         "error markers; 1e-30/1e+30 magnitudes; 2-character uuid; 48-character uuid; an IslandSource; a "
         "SimpleSource; a default-constructed ComponentSource with empty coordinate strings) x format "
-        "{csv,tab,tex,vot,xml,fits,db} x prefix {None,'x'} x meta {None, dict}; plus catalogues of 1000 (quick) / "
+        "{csv,tab,tex,vot,xml,fits,db} x prefix {None,'x'} x meta {None, dict}; plus catalogues of 500 (quick) / "
         "4000 (thorough) rows cycling through all archetypes, started at every archetype, in every format.  Order "
         "matters because column types/widths may be taken from the first row.  Every case writes >= 1 file and is "
         "non-trivial; distinct = distinct (sequence, format, prefix, meta).")
@@ -66,7 +67,7 @@ def maxlen(tier):
 
 
 def nlarge(tier):
-    return 1000 if tier == "quick" else 4000
+    return 500 if tier == "quick" else 4000
 
 
 def axes(tier, seed):
@@ -248,6 +249,8 @@ def read_table_format(path, tag, fmt, prefix, names):
     rows = []
     for s in catalogs.table_to_source_list(t, src_type=CLS[tag]):
         rows.append({n: getattr(s, n) for n in names if n not in missing})
+    if missing:
+        missing = ["%s%s" % (pre, n) for n in missing[:3]] + ["... (the file has: %s ...)" % ",".join(t.colnames[:3])]
     return rows, missing
 
 
@@ -268,8 +271,10 @@ def read_db(path):
 
 
 def roundtrip(seq_desc, srcs, exp, fmt, prefix, meta, ctx, sig_tail):
-    """write with save_catalog, read back, compare; reports violations; returns the outcome label"""
-    base = os.path.join(os.environ["VERIF_SCRATCH"], "c18_%d" % os.getpid())
+    """write with save_catalog, read back, compare; reports one violation per class found; returns
+    {violation class: [descriptions]}"""
+    scratch = os.environ.get("VERIF_SCRATCH") or ("/dev/shm" if os.path.isdir("/dev/shm") else tempfile.gettempdir())
+    base = os.path.join(scratch, "c18_%d" % os.getpid())
     if os.path.isdir(base):
         shutil.rmtree(base, ignore_errors=True)
     os.makedirs(base)
@@ -333,7 +338,7 @@ def roundtrip(seq_desc, srcs, exp, fmt, prefix, meta, ctx, sig_tail):
                         continue
                 ctx.count("tables_read")
                 if missing:
-                    bad("column_missing", "%s: columns %r absent" % (tag, missing[:6]))
+                    bad("column_missing", "%s: columns absent: %s" % (tag, " ".join(missing[:4])))
                 if len(rows) != len(erows):
                     bad("row_count", "%s: %d rows read back, %d written" % (tag, len(rows), len(erows)))
                     continue
